@@ -11,6 +11,9 @@ fixes = []
 kf = json.load(open(os.path.join(VERIF, 'known_findings.json')))
 for f in kf.get('fixed', []):
     if f['commit'] not in fixes: fixes.append(f['commit'])
+# the withdrawn repair and its revert (DESIGN section 5, row 51) are changes of /repo too
+for c in ('a17af0e', '1b065ea'):
+    if c not in fixes: fixes.append(c)
 checks = []; na = []
 for p in props:
     pid = p['id']
